@@ -133,6 +133,30 @@ def run(db, chk):
     # ---- write_manifest_file
     R4 = "DOM-publish"
     chk.rule(R4, "flags recomputed and max fragment id updated before the handler is called; sanity checks before publication")
+    check_flags_before_commit(db, chk, R4)
+    for pat in (r"^io::commit::commit_transaction$", r"^io::commit::do_commit_detached_transaction$"):
+        g = db.one(pat, file="lance/src/io/commit.rs")
+        gb = user_body(db, g, marker="dataset::write_manifest_file")
+        chk.analysed(gb)
+        gc = gb.cfg
+        wm = calls(gb, "dataset::write_manifest_file")
+        fs = calls(gb, "io::commit::fix_schema")
+        cs = calls(gb, "io::commit::check_storage_version")
+        key = g.path.split("::")[-1]
+        ok = len(wm) == 1 and len(fs) == 1 and len(cs) == 1 and gc.dominates(fs[0][0], cs[0][0]) and gc.dominates(cs[0][0], wm[0][0])
+        chk.ob(R4, "sanity<publish:%s" % key, ok, "fix_schema < check_storage_version < write_manifest_file in %s" % key, gb.loc())
+        if ok:
+            # their errors propagate: on the Err edges write_manifest_file is unreachable
+            for nm, site in (("fix_schema", fs[0]), ("check_storage_version", cs[0])):
+                oks_, errs_, _ = ok_targets(gc, site[0])
+                r_e = gc.reachable_from(list(errs_), include_start=True, avoid=list(oks_)) if errs_ else set()
+                chk.ob(R4, "%s-error-stops:%s" % (nm, key), bool(errs_) and wm[0][0] not in r_e, "an error from %s prevents publication" % nm, gb.loc(site[1]["ln"]))
+    _validator_inventory(db, chk)
+
+
+def check_flags_before_commit(db, chk, R4):
+    """write_manifest_file -- the last stop of every manifest before the handler (commits, clones, branches): the feature flags
+    are recomputed from the final manifest and the max fragment id updated before CommitHandler::commit (shared with C37)."""
     w = db.one(r"^dataset::write_manifest_file$", file="lance/src/dataset.rs")
     wb = user_body(db, w, marker="CommitHandler::commit")
     chk.analysed(wb)
@@ -157,24 +181,9 @@ def run(db, chk):
     chk.ob(R4, "flags<commit", okaf, "with auto_set_feature_flags the flags of the manifest being published are recomputed before commit", wb.loc(cm[1]["ln"]))
     a_m = wc.op_origins(cm[1]["args"][1])
     chk.ob(R4, "commit-gets-same-manifest", ("upvar", "manifest") in a_m or ("arg", 4) in a_m, "the handler publishes the manifest that was normalised", wb.loc(cm[1]["ln"]))
-    fr = [(b, t) for b, t in wc.calls() if False]
-    for pat in (r"^io::commit::commit_transaction$", r"^io::commit::do_commit_detached_transaction$"):
-        g = db.one(pat, file="lance/src/io/commit.rs")
-        gb = user_body(db, g, marker="dataset::write_manifest_file")
-        chk.analysed(gb)
-        gc = gb.cfg
-        wm = calls(gb, "dataset::write_manifest_file")
-        fs = calls(gb, "io::commit::fix_schema")
-        cs = calls(gb, "io::commit::check_storage_version")
-        key = g.path.split("::")[-1]
-        ok = len(wm) == 1 and len(fs) == 1 and len(cs) == 1 and gc.dominates(fs[0][0], cs[0][0]) and gc.dominates(cs[0][0], wm[0][0])
-        chk.ob(R4, "sanity<publish:%s" % key, ok, "fix_schema < check_storage_version < write_manifest_file in %s" % key, gb.loc())
-        if ok:
-            # their errors propagate: on the Err edges write_manifest_file is unreachable
-            for nm, site in (("fix_schema", fs[0]), ("check_storage_version", cs[0])):
-                oks_, errs_, _ = ok_targets(gc, site[0])
-                r_e = gc.reachable_from(list(errs_), include_start=True, avoid=list(oks_)) if errs_ else set()
-                chk.ob(R4, "%s-error-stops:%s" % (nm, key), bool(errs_) and wm[0][0] not in r_e, "an error from %s prevents publication" % nm, gb.loc(site[1]["ln"]))
+
+
+def _validator_inventory(db, chk):
     # ---- validator inventory (information)
     inv = {}
     for pat, file in ((r"^dataset::Dataset::validate$", "lance/src/dataset.rs"), (r"^format::fragment::DataFile::validate$", "lance-table/src/format/fragment.rs")):
@@ -193,7 +202,6 @@ def run(db, chk):
         inv[v.path] = sorted(fields)
     chk.extra["validator_field_inventory"] = inv
     chk.info("validator inventory is informational: it lists the fields Dataset::validate / DataFile::validate read")
-    chk.sample({"build_manifest_ok_returns": oks})
 
 
 def _reaches_local(c, start, targets, limit=400):
